@@ -86,6 +86,10 @@ static void check_text(const char *fam, const char *s, long *nontrivial) {
     if (rc != CIF_OK) { viol(fam, "parse_numb(\"%s\") returned %d", s, rc); free(u); cif_value_free(v); return; }
     memcpy(vbuf, s, ve); vbuf[ve] = 0;
     want = strtod(vbuf, NULL);
+    if (want == 0.0) {
+        /* zero is judged only when the text denotes exactly zero (a tiny non-zero magnitude is outside the property) */
+        int k2; for (k2 = 0; vbuf[k2] && vbuf[k2] != 'e' && vbuf[k2] != 'E'; k2++) if (vbuf[k2] >= '1' && vbuf[k2] <= '9') want = 5e-324;
+    }
     if (judged(want)) {
         rc = cif_value_get_number(v, &got);
         if (rc != CIF_OK || memcmp(&got, &want, sizeof got) != 0) {
@@ -151,6 +155,12 @@ static void family_accept(int L) {
             if (rc != CIF_OK) free(u);
             cif_value_free(v);
         }
+    }
+    if (WK == 0) {
+        /* syntactically valid numbers with very long exponents / digit strings (values out of range are not judged) */
+        static const char *big[] = { "1e99999999999", "1e-99999999999", "1e2147483647", "1e2147483648", "1e-2147483649", "1.5e+4294967296(3)", "0e99999999999999999999",
+                                     "123456789012345678901234567890e-99999999999999999999" };
+        size_t b; for (b = 0; b < sizeof big / sizeof big[0]; b++) { evals++; check_text("accept-long-exponent", big[b], &nontriv); }
     }
     printf("S accept %ld %ld\n", evals, nontriv);
 }
